@@ -737,6 +737,7 @@ func nonNegative(p *Prog, at ssa.Instruction, n ssa.Value) bool {
 		k, ok := constInt(x)
 		return ok && k >= 0
 	case *ssa.Phi:
+		phiOK := true
 		for _, e := range x.Edges {
 			if k, isC := constInt(e); isC && k >= 0 {
 				continue
@@ -754,10 +755,13 @@ func nonNegative(p *Prog, at ssa.Instruction, n ssa.Value) bool {
 				}
 			}
 			if !okEdge {
-				return false
+				phiOK = false
 			}
 		}
-		return true
+		if phiOK {
+			return true
+		}
+		// (… or the merged value is tested itself on the way: `if n <= 0 { return }` — below)
 	case *ssa.BinOp:
 		switch x.Op {
 		case token.QUO, token.REM:
